@@ -18,6 +18,9 @@ import (
 // its visible rows unchanged.
 
 type c13Case struct {
+	// Heads 0..3 = that many unmerged heads with different rows; 10 = two heads with identical content
+	// (two loaders, same rows, same write_time); 11 = an ancestor and its descendant both still under
+	// root/current (the state a crash between the version PUT and the retire step leaves)
 	Heads int   `json:"heads"`
 	Del   bool  `json:"del"`
 	EPN   int   `json:"epn"`
@@ -44,13 +47,13 @@ func c13Run(r *engine.Run) int {
 		") on every base state heads∈{0..3}×delete-markers×entries_per_node∈{2,4096}; a case is non-trivial when it contains a write attempt, refresh, vacuum or a concurrent writer"
 	r.Bounds["depth"] = depth
 	r.Bounds["alphabet"] = c13Ops
-	r.Bounds["heads"] = []int{0, 1, 2, 3}
+	r.Bounds["heads"] = []string{"0", "1", "2", "3", "2 identical", "ancestor+descendant"}
 	r.Bounds["entries_per_node"] = []int{2, 4096}
 	r.Assumptions = []string{"fake store has S3's consistency (atomic objects, strong LIST)", "clients run sequentially in this check (concurrency is C03/C19)"}
 	var cases []json.RawMessage
-	for heads := 0; heads <= 3; heads++ {
+	for _, heads := range []int{0, 1, 2, 3, 10, 11} {
 		for _, del := range []bool{false, true} {
-			if heads == 0 && del {
+			if (heads == 0 || heads >= 10) && del {
 				continue
 			}
 			for _, epn := range []int{2, 4096} {
@@ -80,6 +83,49 @@ func c13BaseBucket(heads int, del bool, epn int) map[string][]byte {
 	}
 	w := engine.NewWorld()
 	w.SetClock(engine.T(100))
+	if heads == 10 {
+		var cs []*engine.Client
+		for i := 0; i < 2; i++ {
+			c := w.NewClient(fmt.Sprintf("w%d", i+1))
+			must(c.Create(engine.TableOpts{EPN: epn}))
+			cs = append(cs, c)
+		}
+		for _, c := range cs {
+			must(c.SetWriteTime(engine.T(200)))
+			must(c.Exec("begin"))
+			for k := 11; k <= 15; k++ {
+				must(c.Exec("insert into {T} values(?,?,?)", k, "same", k))
+			}
+			must(c.Exec("commit"))
+		}
+		w.Close()
+		m := w.B.Snapshot()
+		c13Base[key] = m
+		return m
+	}
+	if heads == 11 {
+		c := w.NewClient("w1")
+		must(c.Create(engine.TableOpts{EPN: epn}))
+		must(c.SetWriteTime(engine.T(200)))
+		must(c.Exec("begin"))
+		for k := 11; k <= 15; k++ {
+			must(c.Exec("insert into {T} values(?,?,?)", k, "b", k))
+		}
+		must(c.Exec("commit"))
+		before := w.B.Snapshot()
+		must(c.SetWriteTime(engine.T(210)))
+		must(c.Exec("insert into {T} values(16,'b',16)"))
+		w.Close()
+		m := w.B.Snapshot()
+		// undo the retire step: the ancestor is still under root/current/
+		for k, v := range before {
+			if strings.Contains(k, "/root/current/") {
+				m[k] = v
+			}
+		}
+		c13Base[key] = m
+		return m
+	}
 	var cs []*engine.Client
 	for i := 0; i < heads; i++ {
 		c := w.NewClient(fmt.Sprintf("w%d", i+1))
